@@ -1,7 +1,7 @@
 (* C01 -- reliable data channels deliver every message exactly once, intact, in order.
    Property theorems only; proofs in Proof/SctpRecvP.v, SctpC01P.v, SctpSendP.v, SctpDupP.v,
    SctpOrderP.v (stream automaton), SctpOrderSP.v (sender numbering), SctpOrderTP.v
-   (transport), SctpOrderEP.v (end to end).
+   (transport), SctpOrderEP.v (end to end), SctpOnceP.v / SctpOnceEP.v (at most once).
 
    Network abstraction: loss, duplication, reordering and delay of DATA packets are
    subsumed by "the receiver sees an ARBITRARY list of events each of which is one of
@@ -11,7 +11,7 @@
 From Coq Require Import ZArith List Bool.
 From AV Require Import Lib.Bytes Gen.Utils Gen.SctpConst Model.SctpRecv Model.SctpSend
   Proof.SctpRecvP Proof.SctpC01P Proof.SctpSendP Proof.SctpDupP Proof.SctpOrderP Proof.SctpOrderSP
-  Proof.SctpOrderTP Proof.SctpOrderEP.
+  Proof.SctpOrderTP Proof.SctpOrderEP Proof.SctpOnceP Proof.SctpOnceEP.
 Import ListNotations.
 Local Open Scope Z_scope.
 
@@ -113,10 +113,29 @@ Theorem C01_window_small : forall base N t0 msgs st,
 Proof. exact window_small. Qed.
 Print Assumptions C01_window_small.
 
-(* Still PARTIAL: unordered channels ("a duplicate-free sub-multiset of the sends") are
-   covered by theorems 2 and 3 only; the two-endpoint statement "every message IS
-   eventually delivered once the network heals" is liveness of the retransmission
-   machinery and is observed by the scenario oracle (and bounded by C02's theorems). *)
+(* 7. At most once, ordered AND unordered channels.  For ANY message list, ANY initial TSN and
+   ANY list of DATA arrivals inside the TSN window in which the chunks of stream st are sent
+   chunks (every order, loss and duplication pattern), the messages delivered on st are the
+   messages of a DUPLICATE-FREE list D of sent fragment lists: every delivery is one sent
+   message, reassembled from exactly its fragments (msgf), and no sent message is delivered
+   twice (distinct sends have distinct fragment lists).  For unordered channels this is the
+   property's "duplicate-free sub-multiset of the sends"; for ordered ones theorem 5 adds
+   the order.  (Proof: every chunk entering a reassembly queue is afterwards retained or
+   consumed by exactly one delivered run -- a counting invariant of pop_messages in every
+   mode -- and the transport admits a TSN at most once, theorem 3.) *)
+Theorem C01_at_most_once : forall base N t0 msgs st es,
+  r32 base -> 0 <= N < 2147483648 -> in32 t0 ->
+  Forall (fun m => o_data m <> []) msgs -> Z.of_nat (total_frags msgs) <= SCTP_TSN_MODULO ->
+  Forall (data_ev base N) es ->
+  (forall c, In (EvData c) es -> sid c = st -> In c (concat (send_msgs (mkS t0 []) msgs))) ->
+  exists D, msgs_on st (rinit base) es = map msgf D /\ NoDup D /\
+            Forall (fun f => In f (send_msgs (mkS t0 []) msgs)) D.
+Proof. exact at_most_once. Qed.
+Print Assumptions C01_at_most_once.
+
+(* Still PARTIAL: the two-endpoint statement "every message IS eventually delivered once the
+   network heals" is liveness of the retransmission machinery; it is observed by the
+   scenario oracle (and bounded by C02's theorems: no reachable sender state is wedged). *)
 
 (* non-vacuity: a 3-fragment message near the TSN wrap, delivered from a shuffled,
    duplicated arrival list *)
@@ -141,4 +160,12 @@ Example C01_ordered_example :
   msgs_on 1 (rinit 4294967294) (map EvData (rev cs ++ cs)) = [(1, 53, [1; 2]); (1, 53, repeat 7 1201); (1, 51, [9])] /\
   msgs_on 1 (rinit 4294967294) (map EvData (rev (skipn 3 cs) ++ firstn 2 cs)) = [(1, 53, [1; 2])].
 Proof. vm_compute. repeat split; reflexivity. Qed.
+
+(* non-vacuity of theorem 7: an unordered two-fragment message and an unordered one-fragment
+   message, each arriving twice and out of order, are delivered once each *)
+Example C01_unordered_example :
+  let msgs := [mkOut 3 false 53 (repeat 7 1201); mkOut 3 false 51 [9]] in
+  let cs := concat (send_msgs (mkS 5 []) msgs) in
+  msgs_on 3 (rinit 4) (map EvData (rev cs ++ cs ++ rev cs)) = [(3, 51, [9]); (3, 53, repeat 7 1201)].
+Proof. vm_compute. reflexivity. Qed.
 
